@@ -1318,6 +1318,9 @@ func ToGoInt(val Value) (int, bool) {
 			}
 			return int(v.ToSmallInt()), true
 		case UInt64:
+			if v > math.MaxInt {
+				return -1, false
+			}
 			return int(v), true
 		}
 		return 0, false
@@ -1341,8 +1344,14 @@ func ToGoInt(val Value) (int, bool) {
 	case UINT32_FLAG:
 		return int(val.AsUInt32()), true
 	case UINT64_FLAG:
+		if val.AsInlineUInt64() > math.MaxInt {
+			return -1, false
+		}
 		return int(val.AsInlineUInt64()), true
 	case UINT_FLAG:
+		if val.AsUInt() > math.MaxInt {
+			return -1, false
+		}
 		return int(val.AsUInt()), true
 	}
 	return 0, false
